@@ -170,7 +170,7 @@ class Interp:
             "len": PyFunc(self._len, "len", True), "range": PyFunc(range, "range"), "abs": PyFunc(self._abs, "abs", True),
             "tuple": PyFunc(tuple, "tuple", True), "list": PyFunc(list, "list", True), "dict": PyFunc(dict, "dict", True),
             "sorted": PyFunc(self._sorted, "sorted", True), "min": PyFunc(min, "min"), "max": PyFunc(max, "max"),
-            "sum": PyFunc(sum, "sum"), "int": ClassRef("int"), "float": ClassRef("float"), "str": ClassRef("str"),
+            "sum": PyFunc(self._sum, "sum", True), "int": ClassRef("int"), "float": ClassRef("float"), "str": ClassRef("str"),
             "bool": ClassRef("bool"), "complex": ClassRef("complex"),
             "isinstance": PyFunc(self._isinstance, "isinstance", True), "zip": PyFunc(lambda *a: list(zip(*a)), "zip", True),
             "enumerate": PyFunc(lambda a, start=0: list(enumerate(a, start)), "enumerate", True),
@@ -255,6 +255,14 @@ class Interp:
         if isinstance(v, T):
             return name in self.tables.get(v.cls, {})
         return hasattr(v, name)
+
+    def _sum(self, seq, start=0):
+        if isinstance(seq, (Unk, T, Obj)):
+            return Unk("sum")
+        acc = start
+        for x in list(seq):
+            acc = self.binop(ast.Add(), acc, x)
+        return acc
 
     def _sorted(self, seq, key=None, reverse=False):
         if isinstance(seq, (Unk, T, Obj)):
@@ -561,6 +569,8 @@ class Interp:
         if isinstance(v, (int, float, Fraction)):
             if name in ("e",):
                 return v
+            if hasattr(v, name):
+                return PyFunc(getattr(v, name), name)
             raise Raised("AttributeError", node)
         return Unk(name)
 
@@ -863,7 +873,9 @@ class Interp:
         elif isinstance(target, ast.Subscript):
             base = self.eval(target.value, env)
             idx = self.eval(target.slice, env)
-            if isinstance(base, (dict, list)) and (_concrete(idx) or (isinstance(base, dict) and _hashable_key(idx))):
+            if isinstance(base, Obj) and "setitem" in base.methods:
+                base.methods["setitem"](idx, value)
+            elif isinstance(base, (dict, list)) and (_concrete(idx) or (isinstance(base, dict) and _hashable_key(idx))):
                 try:
                     base[idx] = value
                 except Exception:
@@ -873,7 +885,7 @@ class Interp:
             if isinstance(base, Obj):
                 base.attrs[target.attr] = value
             elif isinstance(base, T):
-                env.interp_note(f"store to attribute {target.attr} of a multivector-typed value")
+                raise NoValue(f"store to attribute {target.attr} of a multivector-typed value")
         else:
             raise NoValue(f"assignment target {un(target)}")
 
